@@ -183,7 +183,7 @@ func runC03(c *Ctx, scAny any) {
 				}
 			}
 			if gotAll != nil {
-				<-gotAll // singleplex: consume the peer's data before closing the connection
+				Await(gotAll) // singleplex: consume the peer's data before closing the connection
 			}
 			e.inCall = "Close"
 			stream.Close()
